@@ -686,3 +686,56 @@ def rule_redefinition_replaces(ctx):
             ctx.holds("REDEFINE", key, f.where(line), "a definition of the same name is replaced when the type or the order differs", nontrivial=True)
     ctx.floor("REDEFINE", 1, n, "(replacement tests in VSfdefine)")
     return n
+
+
+# ---------------------------------------------------------------------------------------------------------------------
+def rule_search_flag_reset(ctx, dirs=None, floor=8):
+    """SEARCHFLAG: the nested-search idiom — for every item of an outer loop an inner loop looks the item up and sets a flag on a
+    match, and behind the inner loop the outer body tests the flag ("not found: add it").  The flag describes the *current* item
+    only if the outer body (or the inner loop's header) gives it its start value before the inner loop; initialised once before
+    the outer loop, the first match makes every later item count as found, and what should have been done for them is skipped."""
+    prog = ctx.prog
+    n = 0
+    occ = {}
+
+    def reads(e):
+        return {x[1] for x in walk(e, True) if x[0] == "var"}
+
+    for f in prog.funcs:
+        if dirs and not f.rel.startswith(tuple(dirs)):
+            continue
+        for lp, _st in loops_of(f):
+            body = loop_body(lp)
+            kids = body[1] if body and body[0] == "block" else [body]
+            for ki, kid in enumerate(kids):
+                if kid[0] not in ("for", "while", "do"):
+                    continue
+                flags = set()
+                for e, _n in seq_of(loop_body(kid)):
+                    for x in walk(e, True):
+                        if x[0] == "asg" and x[1] == "=" and kind(strip(x[2])) == "var" and is_int(x[3]) and int_val(x[3]) != 0:
+                            flags.add(strip(x[2])[1])
+                for v in sorted(flags):
+                    later = [k2 for k2 in kids[ki + 1:] if k2[0] == "if" and v in reads(k2[1])]
+                    if not later:
+                        continue
+                    reset = False
+                    for k0 in kids[:ki]:
+                        if k0[0] == "s":
+                            if kind(k0[1]) == "decl":
+                                reset = reset or any(d[0] == v and d[2] is not None for d in k0[1][1])
+                            else:
+                                reset = reset or any(x[0] == "asg" and x[1] == "=" and kind(strip(x[2])) == "var" and strip(x[2])[1] == v for x in walk(k0[1], True))
+                    if kid[0] == "for" and kid[1] is not None:
+                        reset = reset or any(x[0] == "asg" and x[1] == "=" and kind(strip(x[2])) == "var" and strip(x[2])[1] == v for x in walk(kid[1], True))
+                    n += 1
+                    key = "SEARCHFLAG:%s:%s" % (f.name, v)
+                    occ[key] = occ.get(key, 0) + 1
+                    if occ[key] > 1:
+                        key += "#%d" % occ[key]
+                    if reset:
+                        ctx.holds("SEARCHFLAG", key, f.where(node_line(kid)), "`%s` gets its start value in every pass of the outer loop before the inner search" % v, nontrivial=True)
+                    else:
+                        ctx.violated("SEARCHFLAG", key, f.where(node_line(kid)), "the inner search sets `%s` on a match and the outer loop tests it afterwards, but no pass of the outer loop gives `%s` its start value: after the first match every later item counts as found" % (v, v))
+    ctx.floor("SEARCHFLAG", floor, n, "(nested searches with a found-flag tested behind the inner loop)")
+    return n
